@@ -86,6 +86,13 @@ func (c *FnCtx) resolveCallee(cc *ssa.CallCommon) *calleeInfo {
 		}
 	} else {
 		ci.name = "dynamic:" + cc.Value.Name()
+		// a call through a named local / captured / parameter func variable: addressed by that name
+		switch cc.Value.(type) {
+		case *ssa.Parameter, *ssa.FreeVar, *ssa.UnOp:
+			if n := chanVarName(cc.Value); n != "" {
+				ci.name = "dynamic:" + n
+			}
+		}
 		// a call through a value of a named function type of another package (context.CancelFunc ...):
 		// addressed in the specs by the type's name
 		if n, ok := cc.Value.Type().(*types.Named); ok && n.Obj().Pkg() != nil && n.Obj().Pkg() != c.g.tpkg {
@@ -644,7 +651,7 @@ func (c *FnCtx) call(ins ssa.Instruction, cc *ssa.CallCommon, val ssa.Value) {
 	}
 	if cl, ok := ins.(*ssa.Call); ok && len(results) == 1 {
 		if T, ok := c.g.privateObject(cl); ok {
-			c.private = append(c.private, privObj{results[0], T})
+			c.private = append(c.private, privObj{results[0], T, cl.Block()})
 		}
 	}
 	c.callRes[ci.name] = append(c.callRes[ci.name], callSiteRes{results, rtypes, c.snapshot()})
@@ -1310,12 +1317,33 @@ func chanVarName(ch ssa.Value) string {
 			}
 		}
 	case *ssa.Call:
+		// a call result bound to a local variable is named after it (x := f(); <-x: "x")
+		if refs := x.Referrers(); refs != nil {
+			for _, r := range *refs {
+				if d, ok := r.(*ssa.DebugRef); ok && !d.IsAddr {
+					if id, ok := d.Expr.(*ast.Ident); ok {
+						return id.Name
+					}
+				}
+			}
+		}
 		// the channel a call returns, e.g. ctx.Done(): named "Done()"
 		if x.Call.IsInvoke() {
 			return x.Call.Method.Name() + "()"
 		}
 		if f := x.Call.StaticCallee(); f != nil {
 			return f.Name() + "()"
+		}
+	case *ssa.Alloc:
+		// the object a local pointer variable was initialised with (ctx := &T{...}): named after that variable
+		if refs := x.Referrers(); refs != nil {
+			for _, r := range *refs {
+				if d, ok := r.(*ssa.DebugRef); ok && !d.IsAddr {
+					if id, ok := d.Expr.(*ast.Ident); ok {
+						return id.Name
+					}
+				}
+			}
 		}
 	case *ssa.MakeChan:
 		if refs := x.Referrers(); refs != nil {
